@@ -1,5 +1,9 @@
 // Static layout obligations of C04: every aggregate is one contiguous block of
 // exactly N elements in declaration order (matrices row-major), standard layout.
+// Interop selection: the foreign-type constructors / assignments are enabled exactly for
+// aggregates of the right element type AND the right number of elements (negative cases:
+// a trait that loses its sizeof guard or its is_same<..., Base> test would let Vec2<T> (FXYZ<T>)
+// compile and silently drop z); raw C arrays of the right length are accepted.
 #include <half.h>
 #include <ImathVec.h>
 #include <ImathColor.h>
@@ -11,7 +15,18 @@
 #include <cstdio>
 #include <type_traits>
 using namespace IMATH_NAMESPACE;
-static int count = 0;
+static int count = 0, interop = 0;
+template <class T> struct FXY { T x, y; };
+template <class T> struct FXYZ { T x, y, z; };
+template <class T> struct FXYZW { T x, y, z, w; };
+template <class T, int N> struct FSub { T d[N]; const T& operator[] (int i) const { return d[i]; } T& operator[] (int i) { return d[i]; } };
+template <class T, int N, int M> struct FSub2 { T d[N][M]; const T* operator[] (int i) const { return d[i]; } T* operator[] (int i) { return d[i]; } };
+template <class T> struct Wider { typedef double type; };
+template <> struct Wider<double> { typedef float type; };
+template <> struct Wider<int64_t> { typedef int type; };
+#define YES(To, From) static_assert (std::is_constructible<To, From>::value && std::is_assignable<To&, From>::value, #To " must be constructible / assignable from " #From)
+#define NO(To, From) static_assert (!std::is_constructible<To, From>::value && !std::is_assignable<To&, From>::value, #To " must NOT be constructible / assignable from " #From)
+#define COMMA ,
 #define OFF(Ty, m, k) static_assert (offsetof (Ty, m) == (k) * sizeof (T), #Ty "::" #m " is not element " #k)
 template <class T> struct Check
 {
@@ -37,13 +52,33 @@ template <class T> struct Check
         static_assert (sizeof (((Matrix44<T>*) 0)->x[0]) == 4 * sizeof (T), "Matrix44 rows are contiguous (row-major)");
         static_assert (sizeof (((Matrix33<T>*) 0)->x[0]) == 3 * sizeof (T), "Matrix33 rows are contiguous (row-major)");
         static_assert (sizeof (((Matrix22<T>*) 0)->x[0]) == 2 * sizeof (T), "Matrix22 rows are contiguous (row-major)");
-        count += 38;
+        static_assert (std::is_standard_layout<Color3<T>>::value, "Color3 layout");
+        static_assert (offsetof (Color3<T>, x) == 0 && offsetof (Color3<T>, y) == sizeof (T) && offsetof (Color3<T>, z) == 2 * sizeof (T), "Color3 members are elements 0,1,2");
+        count += 40;
+        typedef typename Wider<T>::type U; // another element type of a different size
+        // positive selection (struct with named members, subscriptable struct, raw C array of the right length)
+        YES (Vec2<T>, FXY<T>); YES (Vec3<T>, FXYZ<T>); YES (Vec4<T>, FXYZW<T>);
+        YES (Vec2<T>, FSub<T COMMA 2>); YES (Vec3<T>, FSub<T COMMA 3>); YES (Vec4<T>, FSub<T COMMA 4>);
+        YES (Vec2<T>, T (&)[2]); YES (Vec3<T>, T (&)[3]); YES (Vec4<T>, T (&)[4]);
+        YES (Matrix22<T>, FSub2<T COMMA 2 COMMA 2>); YES (Matrix33<T>, FSub2<T COMMA 3 COMMA 3>); YES (Matrix44<T>, FSub2<T COMMA 4 COMMA 4>);
+        YES (Matrix22<T>, T (&)[2][2]); YES (Matrix33<T>, T (&)[3][3]); YES (Matrix44<T>, T (&)[4][4]);
+        // wrong number of elements
+        NO (Vec2<T>, FXYZ<T>); NO (Vec2<T>, FXYZW<T>); NO (Vec3<T>, FXY<T>); NO (Vec3<T>, FXYZW<T>); NO (Vec4<T>, FXY<T>); NO (Vec4<T>, FXYZ<T>);
+        NO (Vec2<T>, FSub<T COMMA 3>); NO (Vec3<T>, FSub<T COMMA 2>); NO (Vec3<T>, FSub<T COMMA 4>); NO (Vec4<T>, FSub<T COMMA 3>);
+        NO (Vec2<T>, T (&)[3]); NO (Vec3<T>, T (&)[2]); NO (Vec3<T>, T (&)[4]); NO (Vec4<T>, T (&)[3]);
+        NO (Matrix22<T>, FSub2<T COMMA 3 COMMA 3>); NO (Matrix33<T>, FSub2<T COMMA 2 COMMA 2>); NO (Matrix33<T>, FSub2<T COMMA 4 COMMA 4>); NO (Matrix44<T>, FSub2<T COMMA 3 COMMA 3>);
+        NO (Matrix33<T>, T (&)[4][4]); NO (Matrix44<T>, T (&)[3][3]); NO (Matrix22<T>, T (&)[3][3]);
+        // wrong element type (of a different size, and with the same total size)
+        NO (Vec2<T>, FXY<U>); NO (Vec3<T>, FXYZ<U>); NO (Vec4<T>, FXYZW<U>); NO (Vec3<T>, FSub<U COMMA 3>); NO (Vec3<T>, U (&)[3]);
+        NO (Matrix33<T>, FSub2<U COMMA 3 COMMA 3>); NO (Matrix44<T>, FSub2<U COMMA 4 COMMA 4>);
+        NO (Vec2<T>, FSub<signed char COMMA 2 * sizeof (T)>); NO (Vec4<T>, FSub<signed char COMMA 4 * sizeof (T)>);
+        interop += 15 + 21 + 9;
     }
 };
 int main ()
 {
     Check<short>::run (); Check<int>::run (); Check<int64_t>::run (); Check<half>::run ();
     Check<float>::run (); Check<double>::run (); Check<unsigned char>::run ();
-    printf ("%d layout assertions hold for 7 element types\n", count);
+    printf ("%d layout assertions and %d interop-selection assertions (positive and negative) hold for 7 element types\n", count, interop);
     return 0;
 }
